@@ -92,3 +92,13 @@ Example C05_ex_wire_gslb :
   run_C05 i = VL [VL [VZ 0; VL [VZ 0; VZ 1]; VZ 0; VZ 0; VL [VL [VL [VL [VZ 1; VZ 100; VZ 100]]; VZ 0]; VL [VL [VL [VZ 2; VZ 100; VZ 100]]; VZ 0]]];
                   VL [VZ 0; VL [VZ 0; VZ 2]; VZ 1; VZ 1; VL [VL [VL [VL [VZ 1; VZ 100; VZ 100]]; VZ 0]; VL [VL [VL [VZ 2; VZ 100; VZ 100]]; VZ 0]]]].
 Proof. exact ex_wire_gslb. Qed.
+(* a gslb history with a REJECTED reload (all weights 0 are written in place, totalWeight 3 is kept): the next Balance
+   falls back to the last sub-cluster of the walk and returns its backend *)
+Example C05_ex_rejected_reload :
+  let i := VL [VL [VZ 7; VL [VL [VZ 0; VZ 1; VL [VL [VZ 1; VZ 1]]]; VL [VZ 1; VZ 2; VL [VL [VZ 2; VZ 1]]]]; VZ 1; VZ 1];
+               VL [VL [VZ 7; VL [VL [VZ 0; VZ 0]; VL [VZ 1; VZ 0]]]; VL [VZ 6; VZ 1; VZ 0; VB [1]; VL []]]] in
+  match run_C05 i with
+  | VL [VL [VZ 1; _]; VL [_; VL [VZ 0; VZ 2]; VZ 1; VZ 0; _]] => True
+  | _ => False
+  end.
+Proof. exact ex_rejected_reload. Qed.
